@@ -138,7 +138,11 @@ def worker(args):
     db, E, names = build(hname)
     R = routes(E, names)
     created = dict((k, c) for k, c in enumerate(names, 1))
-    seqs = [(R[first],) + rest for d in range(0, depth) for rest in itertools.product(R, repeat=d)]
+    # depth 3 (thorough): the later positions are drawn from the routes that hand objects to the program or load them
+    # (the isinstance / random families are pure observations: they are enumerated in first and second position)
+    S = [r for r in R if r[0] not in ('q_isinst', 'q_notinst', 'q_isinst2', 'q_random')]
+    seqs = [(R[first],) + rest for d in range(0, min(depth, 2)) for rest in itertools.product(R, repeat=d)]
+    if depth >= 3: seqs += [(R[first],) + rest for rest in itertools.product(S, repeat=2)]
     for seq in seqs:
         sub.count('sequences')
         with orm.db_session:
@@ -181,7 +185,8 @@ def run(ctx):
     for r in results: core.absorb(ctx, r['sub'])
     c = ctx.counters
     ctx.guard('sequences', c.get('sequences', 0), 1000)
-    ctx.cov['bounds'] = '5 hierarchies x every sequence of <= %d access routes (%s routes per hierarchy) in one fresh session' % (depth, sorted(set(r['routes'] for r in results)))
+    ctx.cov['bounds'] = '%d hierarchies x every sequence of <= 2 access routes (%s routes per hierarchy) in one fresh session%s' % (
+        len(HIERARCHIES), sorted(set(r['routes'] for r in results)), '' if depth < 3 else '; every sequence of 3 routes whose second and third hand out or load objects')
     ctx.assume('SQLite only; one stored object per class')
     return dict(states=c.get('sequences', 0), transitions=c.get('steps', 0), traces_validated_against_impl=c.get('sequences', 0))
 
